@@ -1,5 +1,6 @@
 import AiocoapModel.Basic.Bytes
 import AiocoapModel.Oscore.Protect
+import AiocoapModel.Oscore.Session
 /-! Line protocol for the OSCORE protect/unprotect model (AEAD = `transparentAead`).
 
 Tokens: bytes as hex (`-` empty); `~` = absent (`None`).
@@ -9,6 +10,10 @@ Tokens: bytes as hex (`-` empty); `~` = absent (`None`).
 
 `C11 P <ctx> <seq> <rid> <mtype> <mid> <token> <msg>` → `ok <outer datagram> <rid> <seq'>` | `err:<Class>`
 `C11 U <ctx> <rid> <msg>`  → `ok <code> <opts encoded without Observe> <observe|~> <payload> <rid>` | `err:<Class>`
+`C11 S <ctx> <size> <win> <echo|~> <msg>+` → several requests in a row through `unprotect` on ONE recipient context
+   with its replay window (`win` = `u` uninitialised | `i:<index>:<bitfield>` loaded through
+   `initialize_from_persisted`) and `echo_recovery`: one result per message, joined by ` ; `, each as for `U` or
+   `err:ReplayError` | `err:ReplayErrorWithEcho <rid>`; then ` | <win>` (the window afterwards)
 `C11 Z <option>`           → `<piv|~> <kid|~> <kidctx|~> <group 0|1> <recompressed|~>` | `err:DecodeError`
 `C11 N <ivBytes> <commonIv> <piv> <id>` → nonce | `err:AssertionError`
 `C11 A <alg> <kid> <piv>`  → Encrypt0 AAD
@@ -88,8 +93,54 @@ def msgOk (m : Msg) : Bool := m.code < 256 && bytesOk m.payload && m.opts.all (f
 
 def showInt (i : Int) : String := if i < 0 then s!"-{i.natAbs}" else s!"{i.natAbs}"
 
+def parseMsgs : List String → Option (List Msg)
+  | [] => some []
+  | code :: opts :: payload :: rest => do
+    let m ← parseMsg code opts payload
+    let ms ← parseMsgs rest
+    pure (m :: ms)
+  | _ => none
+
+def showUnprotected (u : Unprotected) (r : ReqId) : String :=
+  match encodeOpts 0 u.opts with
+  | some e =>
+    let obs := match u.observe with | some i => showInt i | none => "~"
+    s!"ok {u.code} {bytesToHex e} {obs} {bytesToHex u.payload} {showRid r}"
+  | none => "out-of-model"
+
+def showSession : Except SErr (Unprotected × ReqId) → String
+  | .ok (u, r) => showUnprotected u r
+  | .error (.base e) => errName e
+  | .error .replay => "err:ReplayError"
+  | .error (.replayEcho r) => s!"err:ReplayErrorWithEcho {showRid r}"
+
+def parseWindow (size : Nat) (s : String) : Option (Option Aiocoap.Oscore.RW) :=
+  match s.splitOn ":" with
+  | ["u"] => some none
+  | ["i", i, b] => do
+    let i ← i.toNat?
+    let b ← b.toNat?
+    pure (some (Aiocoap.Oscore.RW.fromPersisted size i b))
+  | _ => none
+
+def showWindow : Option Aiocoap.Oscore.RW → String
+  | none => "u"
+  | some w => s!"i:{w.index}:{w.bitfield}"
+
 def handle (args : List String) : String :=
   match args with
+  | "S" :: ctx :: size :: win :: echo :: msgs =>
+    match parseCtx ctx, size.toNat?, parseOptBytes echo, parseMsgs msgs with
+    | some B, some size, some echo, some ms =>
+      match parseWindow size win with
+      | none => "bad-op"
+      | some win =>
+        if size = 0 || ms.isEmpty || !(ms.all msgOk) then "out-of-model" else
+        let r := sessionRun transparentAead B { size, win, echo } ms
+        let outs := r.2.map showSession
+        if outs.any (· == "out-of-model") then "out-of-model" else
+        " ; ".intercalate outs ++ " | " ++ showWindow r.1.win
+    | _, _, _, _ => "bad-op"
   | ["P", ctx, seq, rid, mtype, mid, token, code, opts, payload] =>
     match parseCtx ctx, seq.toNat?, parseRid rid, mtype.toNat?, mid.toNat?, hexToBytes token,
           parseMsg code opts payload with
